@@ -21,7 +21,7 @@ EXPLANATION = (
     'the ValueSpecBase.apply pipeline (frozen, missing, None tests dominate; '
     '_validate on every path after _apply) and boundary operators of the '
     'range/size validators; (e) unknown keys are rejected before any store.')
-FLOORS = {'C03.a': 11, 'C03.b': 5, 'C03.c': 1, 'C03.d': 4, 'C03.e': 1, 'C03.f': 10, 'C03.g': 1, 'C03.h': 2}
+FLOORS = {'C03.a': 11, 'C03.b': 5, 'C03.c': 1, 'C03.d': 4, 'C03.e': 1, 'C03.f': 10, 'C03.g': 1, 'C03.h': 2, 'C03.i': 2}
 FILES = c08.FILES + ['pyglove/core/typing/value_specs.py',
                      'pyglove/core/typing/class_schema.py']
 
@@ -132,9 +132,41 @@ def _primitive_guards(idx, word):
         (c08._raw_of_call(idx, f, c) or '') in slots for c in n.calls())]
   guards = {n.id for n in g.nodes if n.kind == 'test' and g.always_raises_from(n, 'true') and any(
       isinstance(x, ast.Attribute) and x.attr == word for x in ast.walk(n.ast))}
+  # the same raising test moved into a private helper called at the same place
+  cls = idx.enclosing_class(f)
+  def guard_helper(call):
+    d = A.call_name(call) or ''
+    h = cls.methods.get(d[5:]) if d.startswith('self.') and cls is not None else None
+    if h is None or h is f:
+      return False
+    gh = C.cfg_of(h.node)
+    tests = [n for n in gh.nodes if n.kind == 'test' and gh.always_raises_from(n, 'true') and any(
+        isinstance(x, ast.Attribute) and x.attr == word for x in ast.walk(n.ast))]
+    if not tests:
+      return False
+    # every normal return of the helper comes from the non-raising side of such a
+    # test (or of its `<bound> is not None` companion): no path around the test
+    blocked = {n.id for n in tests}
+    be = set()
+    for n in gh.nodes:
+      if n.kind == 'test' and isinstance(n.ast, ast.Compare) and len(n.ast.ops) == 1 \
+          and isinstance(n.ast.comparators[0], ast.Constant) and n.ast.comparators[0].value is None \
+          and (word in A.unparse(n.ast) or '_value_spec' in A.unparse(n.ast)):
+        lab = 'false' if isinstance(n.ast.ops[0], ast.IsNot) else 'true'
+        be |= {(n.id, m.id, l) for m, l in n.succ if l == lab}
+      if n.kind == 'test' and A.unparse(n.ast) in ('self._value_spec', 'self.value_spec'):
+        be |= {(n.id, m.id, l) for m, l in n.succ if l == 'false'}
+    seen, _ = gh.reach(gh.entry, blocked_nodes=blocked, blocked_edges=be, follow_exc=False)
+    return gh.exit.id not in seen
+  guards |= {n.id for n in g.nodes if n.ast is not None and n.kind != 'test' and any(guard_helper(c) for c in n.calls())}
   if not guards:
     return False
   blocked_edges = set()
+  # the value to store: the primitive's value parameter and its formalized form
+  prm = [p for p in A.param_names(f.node) if p != 'self']
+  value_names = set(prm[1:2]) | {nm for st in ast.walk(f.node) if isinstance(st, ast.Assign)
+                                 and isinstance(st.value, ast.Call) and (A.call_name(st.value) or '').endswith('_formalized_value')
+                                 for nm in A.assigned_names(st.targets[0])}
   for n in g.nodes:
     if n.kind != 'test':
       continue
@@ -146,7 +178,7 @@ def _primitive_guards(idx, word):
         and n.ast.comparators[0].value is None and (word in t or '_value_spec' in t):
       lab = 'false' if isinstance(n.ast.ops[0], ast.IsNot) else 'true'
       blocked_edges |= {(n.id, m.id, l) for m, l in n.succ if l == lab}
-    if word == 'min_size' and c08.is_missing_cmp(n.ast, ('value', 'new_value')):
+    if word == 'min_size' and c08.is_missing_cmp(n.ast, value_names):
       blocked_edges |= {(n.id, m.id, l) for m, l in n.succ if l == 'false'}
   targets = raw(('list.insert', 'list.append')) if word == 'max_size' else raw(('list.__setitem__',))
   if not targets:
@@ -345,7 +377,16 @@ def rule_h(ctx):
   f = idx.lookup_method(S.DICT, '_sym_missing')
   g = C.cfg_of(f.node)
   problems = []
-  inner = [k for k in g.nodes if k.kind == 'iter' and A.unparse(k.ast.iter) == 'keys']
+  # locals by role: `<matched>, _ = ....resolve(...)`; `for <key_spec>, <keys> in <matched>.items()`
+  matched = {st.targets[0].elts[0].id for st in ast.walk(f.node) if isinstance(st, ast.Assign)
+             and isinstance(st.targets[0], ast.Tuple) and len(st.targets[0].elts) == 2
+             and isinstance(st.targets[0].elts[0], ast.Name)
+             and isinstance(st.value, ast.Call) and (A.call_name(st.value) or '').endswith('.resolve')}
+  KEYS = {lp.target.elts[1].id for lp in ast.walk(f.node) if isinstance(lp, ast.For)
+          and isinstance(lp.iter, ast.Call) and isinstance(lp.iter.func, ast.Attribute) and lp.iter.func.attr == 'items'
+          and isinstance(lp.iter.func.value, ast.Name) and lp.iter.func.value.id in matched
+          and isinstance(lp.target, ast.Tuple) and len(lp.target.elts) == 2 and isinstance(lp.target.elts[1], ast.Name)}
+  inner = [k for k in g.nodes if k.kind == 'iter' and isinstance(k.ast.iter, ast.Name) and k.ast.iter.id in KEYS]
   if not inner:
     problems.append('the loop over the matched keys vanished')
   else:
@@ -354,7 +395,8 @@ def rule_h(ctx):
     if outer:
       # assuming the spec matched at least one key, every pass through the outer
       # loop body reaches the loop over those keys
-      allowed = [t for t in g.nodes if t.kind == 'test' and A.unparse(t.ast) in ('keys', 'len(keys) > 0', 'len(keys) != 0')]
+      allowed = [t for t in g.nodes if t.kind == 'test' and A.unparse(t.ast) in
+                 {x for kk in KEYS for x in (kk, f'len({kk}) > 0', f'len({kk}) != 0')}]
       blocked = {(t.id, m.id, l) for t in allowed for m, l in t.succ if l == 'false'}
       for m, lab in outer[0].succ:
         if lab in ('body', 'true', 'next'):
@@ -398,6 +440,43 @@ def rule_c(ctx):
   for o in ctx.obs[before:]:
     o.rule = 'C03.c'
     o.what = ('a rejected write leaves the location untouched: ' + o.what)
+  # bulk mutators that re-apply the spec after emptying the storage: whatever
+  # the re-application can reject is checked before the first raw write
+  idx = ctx.index
+  for cls_fq in (S.LIST, S.DICT):
+    c = idx.cls(cls_fq)
+    for name, f in sorted(c.methods.items()):
+      if name in ('use_value_spec', '__init__', '__setstate__', '_sym_clone', 'custom_apply'):
+        continue
+      g = C.cfg_of(f.node)
+      refill = [k for k in g.nodes if k.ast is not None and any(
+          A.call_name(x) == 'self.use_value_spec' and x.args and not (isinstance(x.args[0], ast.Constant) and x.args[0].value is None)
+          for x in k.calls())]
+      if not refill:
+        continue
+      raw = [k for k in g.nodes if k.ast is not None and any(
+          (A.call_name(x) or '').startswith(('super().', 'dict.', 'list.')) and (A.call_name(x) or '').split('.')[-1] in ('clear', '__delitem__', 'pop', 'popitem', '__setitem__', 'update', 'insert', 'append', 'extend', 'remove', 'sort', 'reverse')
+          for x in k.calls())]
+      raw += [k for k in g.nodes if k.kind == 'stmt' and isinstance(k.ast, ast.Assign)
+              and A.unparse(k.ast.targets[0]) == 'self._value_spec']
+      def prevalidates(k):
+        for x in k.calls():
+          d = A.call_name(x) or ''
+          if d.endswith('.apply') and x.args and A.unparse(x.args[0]) in ('{}', 'dict()', '[]', 'list()'):
+            return True
+        return False
+      spec_locals = {t.id for k in g.nodes if k.kind == 'stmt' and isinstance(k.ast, ast.Assign)
+                     and A.unparse(k.ast.value) == 'self._value_spec' for t in k.ast.targets if isinstance(t, ast.Name)}
+      blocked = {(k.id, m2.id, l) for k in g.nodes if k.kind == 'test' and A.unparse(k.ast) in spec_locals | {'self._value_spec'}
+                 for m2, l in k.succ if l == 'false'}
+      pre = {k.id for k in g.nodes if k.ast is not None and prevalidates(k)}
+      seen, parent = g.reach(g.entry, blocked_nodes=pre, blocked_edges=blocked, follow_exc=False)
+      hit = [k for k in raw if k.id in seen]
+      ctx.ob('C03.c', f.fq + '#bulk', bool(raw) and not hit,
+             'a rejected write leaves the location untouched: a mutator that empties the storage and re-applies the '
+             'value spec validates the outcome (spec applied to an empty value) before the first raw write', f.loc,
+             (f'line {hit[0].lineno} is reached without a prior validation: a required field without default makes the '
+              f're-application raise with the content already gone' if hit else 'raw write not found'))
 
 
 def _cmp_rows(fn):
@@ -545,10 +624,18 @@ def rule_e(ctx):
   idx = ctx.index
   f = idx.func(CS + 'Schema.apply')
   g = C.cfg_of(f.node)
-  guards = [n for n in g.nodes if n.kind == 'test' and A.unparse(n.ast) == 'unmatched_keys']
+  # locals by role: `<matched>, <unmatched> = self.resolve(...)`; `<field> = self._fields[...]`
+  dparam = [p for p in A.param_names(f.node) if p != 'self'][0]
+  unmatched = {st.targets[0].elts[1].id for st in ast.walk(f.node) if isinstance(st, ast.Assign)
+               and isinstance(st.targets[0], ast.Tuple) and len(st.targets[0].elts) == 2
+               and all(isinstance(e, ast.Name) for e in st.targets[0].elts)
+               and isinstance(st.value, ast.Call) and (A.call_name(st.value) or '').endswith('.resolve')}
+  field_locals = {nm for st in ast.walk(f.node) if isinstance(st, ast.Assign) and isinstance(st.value, ast.Subscript)
+                  and A.unparse(st.value.value) == 'self._fields' for nm in A.assigned_names(st.targets[0])}
+  guards = [n for n in g.nodes if n.kind == 'test' and isinstance(n.ast, ast.Name) and n.ast.id in unmatched]
   stores = [n for n in g.nodes if n.kind == 'stmt' and isinstance(n.ast, ast.Assign)
             and isinstance(n.ast.targets[0], ast.Subscript)
-            and A.dotted(n.ast.targets[0].value) == 'dict_obj']
+            and A.dotted(n.ast.targets[0].value) == dparam]
   problems = []
   if not guards or not g.always_raises_from(guards[0], 'true'):
     problems.append('unmatched keys do not raise')
@@ -563,7 +650,7 @@ def rule_e(ctx):
       problems.append('a store is reachable without the unmatched-keys test')
     # stored value is the applied one
     for s in stores:
-      if not D.derives_from_call_at(g, f.node, s, s.ast.value, lambda d: d == 'field.apply'):
+      if not D.derives_from_call_at(g, f.node, s, s.ast.value, lambda d: d.endswith('.apply') and d.split('.')[0] in field_locals):
         problems.append(f'stored value `{A.unparse(s.ast.value)}` is not the result of field.apply')
   ctx.ob('C03.e', f.fq, not problems,
          'unknown keys raise KeyError before any dict_obj[key] = field.apply(...) store',
@@ -571,7 +658,9 @@ def rule_e(ctx):
   f = idx.lookup_method(S.DICT, S.PRIMITIVE)
   g = C.cfg_of(f.node)
   problems = []
-  gf = [n for n in g.nodes if n.kind == 'test' and A.unparse(n.ast) == 'field']
+  fl = {nm for st in ast.walk(f.node) if isinstance(st, ast.Assign) and isinstance(st.value, ast.Call)
+        and (A.call_name(st.value) or '').endswith('.get_field') for nm in A.assigned_names(st.targets[0])}
+  gf = [n for n in g.nodes if n.kind == 'test' and isinstance(n.ast, ast.Name) and n.ast.id in fl]
   raw = [n for n in g.nodes if n.ast is not None and any(c08._raw_of_call(idx, f, c) for c in n.calls())]
   if not gf:
     problems.append('`if not field` test vanished')
@@ -670,4 +759,5 @@ def run(ctx):
   rule_e(ctx)
   rule_g(ctx)
   rule_h(ctx)
+  S.typecheck_flag_obligations(ctx, 'C03.i', ['pyglove/core/symbolic/list.py', 'pyglove/core/symbolic/dict.py'], floor=2)
   ctx.assume('acceptance semantics of each spec (what apply accepts) is not decided')
